@@ -32,7 +32,7 @@ import (
 )
 
 type reqT struct {
-	Op   string `json:"op"`   // is, uis, impl, hasm
+	Op   string `json:"op"`   // is, uis, sink, impl, hasm
 	Kind string `json:"kind"` // typepat, iqual, ifqn, funcref
 	Wrap string `json:"wrap"` // typepat only: "", "*", "[]"
 	Pkg  string `json:"pkg"`  // package name as written (or the path for ifqn)
@@ -86,6 +86,8 @@ type out struct {
 	Std       map[string]string   `json:"std"`
 	Probes    []string            `json:"probes"`
 	RunPanic  string              `json:"run_panic"`
+	StdSweep  *stdOut             `json:"std_sweep,omitempty"`
+	StdTable  map[string]string   `json:"std_table"` // the whole documented table (stdinfo.PathByName, private copy)
 	Error     string              `json:"error,omitempty"`
 }
 
@@ -100,7 +102,22 @@ var fakeDirs = map[string]string{
 
 const vendoredLib = "example.com/c20app/vendor/example.com/c20/lib"
 
-const targetSrc = `package target
+// in-memory copies of the fake packages at other import paths: exact vendored copies and near misses of
+// "a vendored copy of a package is treated as the package itself"
+var copyOf = map[string]string{
+	vendoredLib: "example.com/c20/lib",
+	// exact vendored copies of third-party packages whose paths END in the path of another package (stdlib io; foo)
+	"example.com/c20app/vendor/example.com/io":    "example.com/io",
+	"example.com/c20app/vendor/example.com/a/foo": "example.com/a/foo",
+	// the path after /vendor/ merely ends in / starts with the package path; the same suffix without a vendor directory;
+	// a directory whose name only contains "vendor"
+	"example.com/c20app/vendor/mirror.org/example.com/c20/lib": "example.com/c20/lib",
+	"mirror.org/example.com/c20/lib":                           "example.com/c20/lib",
+	"example.com/c20app/vendor/example.com/c20/lib/v2":         "example.com/c20/lib",
+	"example.com/c20app/xvendor/example.com/c20/lib":           "example.com/c20/lib",
+}
+
+const targetHeader = `package target
 
 import (
 	"bytes"
@@ -113,51 +130,57 @@ import (
 	"example.com/c20/lib"
 	vlib "example.com/c20app/vendor/example.com/c20/lib"
 	fio "example.com/io"
-)
+	vio "example.com/c20app/vendor/example.com/io"
+	vafoo "example.com/c20app/vendor/example.com/a/foo"
+	vsuf "example.com/c20app/vendor/mirror.org/example.com/c20/lib"
+	msuf "mirror.org/example.com/c20/lib"
+	vpre "example.com/c20app/vendor/example.com/c20/lib/v2"
+	xven "example.com/c20app/xvendor/example.com/c20/lib"
 
-var (
-	p00 io.Reader
-	p01 io.Writer
-	p02 fio.Reader
-	p03 fio.Writer
-	p04 fio.Impl
-	p05 fio.OnlyFake
-	p06 afoo.T
-	p07 bfoo.T
-	p08 afoo.Impl
-	p09 bfoo.Impl
-	p10 *afoo.T
-	p11 []bfoo.T
-	p12 ttemplate.Template
-	p13 htemplate.Template
-	p14 lib.T
-	p15 vlib.T
-	p16 lib.Impl
-	p17 vlib.Impl
-	p18 *bytes.Buffer
-	p19 afoo.OnlyA
-	p20 *ttemplate.Template
-	p21 *vlib.T
-	p22 io.StringWriter
-	p23 afoo.Iface
-	p24 bfoo.Iface
+	gscanner "go/scanner"
+	mrand "math/rand"
+	rpprof "runtime/pprof"
+	tscanner "text/scanner"
 )
 
 `
 
-const nProbes = 25
+// the typed probes every rule is asked about
+var probeTypes = []string{
+	"io.Reader", "io.Writer", "fio.Reader", "fio.Writer", "fio.Impl", "fio.OnlyFake", "afoo.T", "bfoo.T", "afoo.Impl", "bfoo.Impl",
+	"*afoo.T", "[]bfoo.T", "ttemplate.Template", "htemplate.Template", "lib.T", "vlib.T", "lib.Impl", "vlib.Impl", "*bytes.Buffer",
+	"afoo.OnlyA", "*ttemplate.Template", "*vlib.T", "io.StringWriter", "afoo.Iface", "bfoo.Iface",
+	"vio.Reader", "vio.Writer", "vio.Impl", "vafoo.T", "*vafoo.T", "vafoo.Impl", "vsuf.T", "msuf.T", "vpre.T", "xven.T", "*vsuf.T", "[]msuf.T",
+	"vsuf.Impl", "vio.OnlyFake",
+	// the base names that several std packages share: rand, pprof, scanner (template is above)
+	"*mrand.Rand", "mrand.Rand", "*rpprof.Profile", "gscanner.Scanner", "tscanner.Scanner", "*tscanner.Scanner", "mrand.Source",
+}
+
+var nProbes = len(probeTypes)
+
+var targetSrc = func() string {
+	var b strings.Builder
+	b.WriteString(targetHeader)
+	b.WriteString("var (\n")
+	for i, t := range probeTypes {
+		fmt.Fprintf(&b, "\tp%02d %s\n", i, t)
+	}
+	b.WriteString(")\n\n")
+	return b.String()
+}()
 
 // ---- menus
 
-var importMenu = []string{"example.com/io", "example.com/a/foo", "example.com/b/foo", "html/template", "example.com/c20/lib", "text/template", "math/rand"}
+var importMenu = []string{"example.com/io", "example.com/a/foo", "example.com/b/foo", "html/template", "example.com/c20/lib", "text/template", "math/rand", "text/scanner"}
 
 var typepatMenu = [][2]string{
 	{"io", "Reader"}, {"io", "Writer"}, {"io", "OnlyFake"}, {"foo", "T"}, {"foo", "OnlyA"}, {"foo", "Impl"}, {"template", "Template"},
 	{"lib", "T"}, {"lib", "Impl"}, {"nosuchpkg", "T"}, {"bytes", "Buffer"}, {"io", "Impl"}, {"io", "Reader"}, {"foo", "T"}, {"template", "Template"},
+	{"rand", "Rand"}, {"pprof", "Profile"}, {"scanner", "Scanner"},
 }
 var ifaceQualMenu = [][2]string{
 	{"io", "Reader"}, {"io", "Writer"}, {"io", "StringWriter"}, {"foo", "Iface"}, {"lib", "Doer"}, {"nosuchpkg", "Iface"}, {"io", "NoSuchName"},
-	{"foo", "T"}, {"io", "Reader"}, {"foo", "Iface"}, {"io", "Writer"}, {"lib", "Doer"},
+	{"foo", "T"}, {"io", "Reader"}, {"foo", "Iface"}, {"io", "Writer"}, {"lib", "Doer"}, {"rand", "Source"},
 }
 var ifaceFqnMenu = [][2]string{
 	{"example.com/a/foo", "Iface"}, {"example.com/b/foo", "Iface"}, {"example.com/io", "Reader"}, {"example.com/c20/lib", "Doer"},
@@ -166,6 +189,7 @@ var ifaceFqnMenu = [][2]string{
 var funcrefMenu = [][3]string{
 	{"io", "Reader", "Read"}, {"io", "Reader", "ReadFake"}, {"foo", "Iface", "MA"}, {"foo", "Iface", "MB"}, {"io", "StringWriter", "WriteString"},
 	{"lib", "Doer", "Do"}, {"io", "Writer", "Write"}, {"nosuchpkg", "I", "M"}, {"foo", "T", "M"}, {"io", "Reader", "Read"}, {"foo", "Iface", "MA"},
+	{"rand", "Source", "Int63"},
 }
 
 // entries that usually cannot be resolved are picked rarely, so that most files load
@@ -180,8 +204,11 @@ func genReq(r *rand.Rand) reqT {
 				continue
 			}
 			op := "is"
-			if r.Intn(6) == 0 {
+			switch r.Intn(8) {
+			case 0:
 				op = "uis"
+			case 1, 2:
+				op = "sink"
 			}
 			return reqT{Op: op, Kind: "typepat", Wrap: []string{"", "", "", "*", "[]"}[r.Intn(5)], Pkg: m[0], Name: m[1]}
 		case 3, 4, 5:
@@ -212,6 +239,8 @@ func (q reqT) where() string {
 		return fmt.Sprintf("m[\"x\"].Type.Is(`%s%s.%s`)", q.Wrap, q.Pkg, q.Name)
 	case "uis":
 		return fmt.Sprintf("m[\"x\"].Type.Underlying().Is(`%s%s.%s`)", q.Wrap, q.Pkg, q.Name)
+	case "sink":
+		return fmt.Sprintf("m[\"$$\"].SinkType.Is(`%s%s.%s`)", q.Wrap, q.Pkg, q.Name)
 	case "impl":
 		return fmt.Sprintf("m[\"x\"].Type.Implements(`%s.%s`)", q.Pkg, q.Name)
 	default:
@@ -274,9 +303,14 @@ func (o *oracle) pkg(p string) *types.Package {
 	return pk
 }
 
+// stripVendor: the import path a (possibly vendored) package directory stands for: the text after the last "/vendor/"
+// element (cmd/go, golang.org/x/tools/imports.VendorlessPath)
 func stripVendor(p string) string {
-	if i := strings.Index(p, "/vendor/"); i >= 0 {
+	if i := strings.LastIndex(p, "/vendor/"); i >= 0 {
 		return p[i+len("/vendor/"):]
+	}
+	if strings.HasPrefix(p, "vendor/") {
+		return p[len("vendor/"):]
 	}
 	return p
 }
@@ -432,6 +466,12 @@ func main() {
 	tp := func(wrap, pkg, name string) reqT {
 		return reqT{Op: "is", Kind: "typepat", Wrap: wrap, Pkg: pkg, Name: name}
 	}
+	sk := func(wrap, pkg, name string) reqT {
+		return reqT{Op: "sink", Kind: "typepat", Wrap: wrap, Pkg: pkg, Name: name}
+	}
+	ut := func(wrap, pkg, name string) reqT {
+		return reqT{Op: "uis", Kind: "typepat", Wrap: wrap, Pkg: pkg, Name: name}
+	}
 	iq := func(pkg, name string) reqT { return reqT{Op: "impl", Kind: "iqual", Pkg: pkg, Name: name} }
 	ifq := func(p, name string) reqT { return reqT{Op: "impl", Kind: "ifqn", Pkg: p, Name: name} }
 	fr := func(pkg, name, m string) reqT {
@@ -457,6 +497,25 @@ func main() {
 		mk(g(false, nil, fr("foo", "Iface", "MA"))),
 		mk(g(false, []string{fio}, tp("", "io", "OnlyFake")), g(false, nil, iq("io", "Writer"), iq("io", "StringWriter"), fr("io", "StringWriter", "WriteString"))),
 	}
+	// the same type strings in groups with and without Import()s, in both orders, through all three type-pattern filters
+	ht := "html/template"
+	scs = append(scs,
+		mk(g(false, []string{ht, fio}, tp("*", "template", "Template"), sk("*", "template", "Template"), ut("[]", "template", "Template"), sk("", "io", "Reader")),
+			g(false, nil, tp("*", "template", "Template"), sk("*", "template", "Template"), ut("[]", "template", "Template"), sk("", "io", "Reader"))),
+		mk(g(false, nil, sk("", "template", "Template"), sk("", "io", "Writer")), g(false, []string{ht, fio}, sk("", "template", "Template"), sk("", "io", "Writer")),
+			g(false, nil, sk("", "template", "Template"), sk("", "io", "Writer"))),
+		mk(g(false, []string{afoo}, sk("", "foo", "T"), sk("*", "foo", "T")), g(false, []string{bfoo}, sk("", "foo", "T"), sk("*", "foo", "T")),
+			g(true, []string{afoo}, sk("", "foo", "T")), g(false, []string{bfoo, afoo}, sk("", "foo", "T"))),
+		mk(g(false, []string{"example.com/c20/lib"}, sk("", "lib", "T"), tp("[]", "lib", "T"), sk("", "lib", "Impl"))),
+	)
+	// every base name that several std packages share, through every resolver, with and without an overriding Import()
+	scs = append(scs,
+		mk(g(false, nil, tp("*", "rand", "Rand"), iq("rand", "Source"), fr("rand", "Source", "Int63"), tp("*", "pprof", "Profile"),
+			tp("", "scanner", "Scanner"), sk("*", "template", "Template")),
+			g(false, []string{"text/scanner", ht}, tp("", "scanner", "Scanner"), sk("*", "scanner", "Scanner"), tp("*", "template", "Template")),
+			g(false, nil, tp("", "scanner", "Scanner"), sk("*", "scanner", "Scanner"), sk("*", "rand", "Rand"), ut("*", "pprof", "Profile"))),
+		mk(g(false, []string{"math/rand"}, tp("", "rand", "Rand"), iq("rand", "Source")), g(false, nil, tp("", "rand", "Rand"), iq("rand", "Source"))),
+	)
 	cg := func(imports []string, cs ...customT) groupT { return groupT{Imports: imports, Custom: cs} }
 	scs = append(scs,
 		// a fully-qualified name means that package whatever the group imports ("io" is the path of the stdlib package)
@@ -505,7 +564,16 @@ func main() {
 			if gr.Skip {
 				name = "skip_" + name
 			}
-			for j := range gr.Reqs {
+			for j, q := range gr.Reqs {
+				if q.Op == "sink" {
+					// the sink of the call is the declared type of the variable it initialises
+					fmt.Fprintf(&tb, "\nfunc probe_%s_r%d[T any](x T) T { return x }\n\nvar (\n", name, j)
+					for k := 0; k < nProbes; k++ {
+						fmt.Fprintf(&tb, "\t_ %s = probe_%s_r%d(p%02d)\n", probeTypes[k], name, j, k)
+					}
+					tb.WriteString(")\n")
+					continue
+				}
 				fmt.Fprintf(&tb, "\nfunc probe_%s_r%d(interface{}) {}\nfunc use_%s_r%d() {\n", name, j, name, j)
 				for k := 0; k < nProbes; k++ {
 					fmt.Fprintf(&tb, "\tprobe_%s_r%d(p%02d)\n", name, j, k)
@@ -530,7 +598,9 @@ func main() {
 		}
 		srcs[p] = string(b)
 	}
-	srcs[vendoredLib] = srcs["example.com/c20/lib"]
+	for cp, orig := range copyOf {
+		srcs[cp] = srcs[orig]
+	}
 	stdFset := token.NewFileSet()
 	stdImp := importer.ForCompiler(stdFset, "source", nil)
 	u, err := gtypes.NewUniverse(1, srcs, stdImp)
@@ -765,5 +835,11 @@ func main() {
 			addWorld(p, n)
 		}
 	}
+	so, err := stdSweep()
+	if err != nil {
+		fail(err)
+	}
+	o.StdSweep = so
+	o.StdTable = stdDefaults
 	enc.Encode(o)
 }
